@@ -44,12 +44,14 @@ LEVEL = "exploration"
 SHARDS = {"quick": 8, "thorough": 16}
 RULE = (
     "blackbird: programs of 0..8 instructions over the 15 exportable gates, ordered mode "
-    "tuples with gaps, every parameter an arbitrary finite double (Hypothesis floats incl. "
-    "subnormals, -0.0, 1e+-300, max double, integer-valued), Python int, np.float64 or "
-    "np.float32; defaults omitted or given. as_code: programs over 45 instruction classes "
-    "(scalar, tuple, dict, list and array parameters; arrays 1..1000 elements of float64/"
-    "complex128/int64 whose entries have <= 7 significant digits), simulators G/PF/F/P/"
-    "Passive with d given or None, Config with every field non-default in some cases; "
+    "tuples with gaps and offsets, every parameter an arbitrary finite double (Hypothesis "
+    "floats incl. subnormals, -0.0, 1e+-300, max double, integer-valued), Python int (up to "
+    "2**70), np.float64 or np.float32; defaults omitted or given; 5% with a non-exportable "
+    "instruction (must raise PiquassoException). as_code / from_dict / copy: programs of "
+    "0..6 instructions over 44 instruction classes (scalar, complex, tuple, dict, list and "
+    "array parameters; arrays up to 8x8 of float64/complex128/int64 whose entries have <= 7 "
+    "significant digits, incl. -0.0, 1e300, 5e-324), simulators G/PF/F/Sampling/Passive with "
+    "d given or None, Config with none / one / some / all ten fields non-default; "
     "as_code_exec: executable programs (lib.progs gates + permutation interferometers + "
     "photon counting) compared on samples and final state under the same seed. nesting: "
     "inner program of 1..5 instructions registered through 1..3 levels of drawn injective "
@@ -84,7 +86,11 @@ FLOORS = {
 if "--part" in __import__("sys").argv:  # floors are fractions of a full run
     FLOORS = {}
 
+# Sensitivity runs (tools/mutants.py) set both: without the dedicated known-defect parts the
+# unchanged tree exits 0, so any exit 1 is the mutant; without Hypothesis' shrink phase (up
+# to 5 minutes per bucket) a run stays within the quick budget.
 SKIP_KNOWN_REGIONS = bool(os.environ.get("C18_SKIP_KNOWN_REGIONS"))
+NO_SHRINK = bool(os.environ.get("C18_NO_SHRINK"))
 
 F11_BUCKET = "C18:prep:NumberState+weighted-FockStateVector"
 
@@ -1106,16 +1112,12 @@ def prop_from_dict(case, ctx):
     for d, e in zip(descs, literal["instructions"]):
         if e["type"] != d["g"] or e["attributes"]["modes"] != list(d["modes"] or []):
             raise Violation("C18:from_dict:mutates-input", "the dict literal was modified")
-    # last clause (so that the ones above are evaluated on every case): the library's own
-    # notion of "same instruction"
-    if SKIP_KNOWN_REGIONS:
-        return
-    for i, (a, b) in enumerate(zip(direct.instructions, got.instructions)):
-        if not (a == b):
-            raise Violation("C18:from_dict:instruction-eq",
-                            f"instruction {i}: from_dict gives {b!r} with modes {b.modes!r} "
-                            f"({type(b.modes).__name__}); the directly constructed {a!r} has "
-                            f"modes {a.modes!r}; Instruction.__eq__ says they differ")
+    # Observation, not asserted: from_dict stores the modes in the container it was given (a
+    # list for the documented JSON-shaped literal), so `Instruction.__eq__` with the directly
+    # built instruction (tuple modes) is False.  tests/api/program/test_parsing.py pins
+    # `.modes == [0, 1]`, i.e. upstream treats the list as intended: counted only.
+    if any(not (a == b) for a, b in zip(direct.instructions, got.instructions)):
+        ctx.count("dict_eq_false_because_modes_is_a_list")
 
 
 # ============================================================================ (d) copy
@@ -1146,7 +1148,7 @@ def prop_copy(case, ctx):
     if type(cp) is not pq.Program or cp is program or cp.instructions is program.instructions:
         raise Violation("C18:copy:not-a-new-program", "copy() returned the same program / list")
     for where, new in (("copy", cp.instructions), ("copy:instruction", icp)):
-        compare_instructions(program.instructions, new, where, modes_exact_type=False)
+        compare_instructions(program.instructions, new, where, modes_exact_type=True)
         for i, (a, b) in enumerate(zip(program.instructions, new)):
             if a is b or a.params is b.params:
                 raise Violation(f"C18:{where}:shared-object",
@@ -1688,6 +1690,8 @@ def parts(tier):
         Part("prep", prop_prep, strategy=prep_case(),
              examples={"quick": 1600, "thorough": 50000}),
     ]
+    for part in ps:
+        part.shrink = not NO_SHRINK
     if not SKIP_KNOWN_REGIONS:
         ps += [
             Part("as_code_regions", prop_as_code_regions, kind="enum", cases=region_cases),
